@@ -1021,6 +1021,159 @@ MONITOR = {}
 EXECUTOR = {}
 
 
+def _c04_from_model(reps, mode, rng, sc0):
+    out = []
+    variants = {
+        "direct": [{"mode": "direct"}, {"mode": "capture"}],
+        "buf": [{"mode": "buf", "cap": 8}, {"mode": "buf", "cap": 64}, {"mode": "bufflush", "cap": 64, "flush_ms": 1}],
+        "async": [{"mode": "async", "pool": 1, "mcapa": 8, "flush_ms": 0}, {"mode": "async", "pool": 4, "mcapa": 64, "flush_ms": 1}],
+    }[mode]
+    for j, r in enumerate(reps):
+        steps = [{"op": "Start", "append": False}]
+        for st in r["steps"]:
+            if st["op"] in ("Write", "Send"):
+                steps.append({"op": "Log", "len": 12 if j % 3 else 40})
+            elif st["op"] in ("Flush", "Clone", "DropClone", "Shutdown"):
+                steps.append({"op": st["op"]})
+        steps.append({"op": "Stop", "shutdown": (j % 2 == 0)})
+        c = dict(variants[j % len(variants)])
+        c.update({"naming": ["Num", "TsD", "NumD", "Ts"][j % 4], "rot": (j % 5 != 0)})
+        if c["rot"]:
+            c["size"] = 20
+            if j % 7 == 0:
+                c.update({"k": 1, "m": 1, "bg": True})
+        out.append({"sc": sc0 + len(out), "cfg": c, "t0": 1000, "steps": steps, "origin": "tlc:MCFlwConc_gen_" + mode,
+                    "obs": "sync", "tag": {"clone_dropped": any(s["op"] == "DropClone" for s in steps)}})
+    return out
+
+
+def _rand_c04(rng, tier, sc0):
+    out = []
+    for i in range(300 if tier == "quick" else 6000):
+        c = G.rand_cfg(rng, modes=("direct", "buf", "bufflush", "async", "async"), clean=(i % 4 == 0))
+        c["crlf"] = False
+        c["bg"] = (i % 3 == 0)
+        if c["mode"] == "async":
+            c.update({"pool": rng.choice([1, 4, 50]), "mcapa": rng.choice([8, 64, 200]), "flush_ms": rng.choice([0, 1, 5])})
+        if c["mode"] == "bufflush":
+            c["flush_ms"] = 1
+        if i % 6 == 0:
+            c = {"rot": False, "naming": "Num", "mode": c["mode"], "cap": c.get("cap", 64), "pool": 2, "mcapa": 16,
+                 "flush_ms": c.get("flush_ms", 0)}
+        steps = [{"op": "Start", "append": False}]
+        nclones = 0
+        for _ in range(rng.choice([5, 20, 80])):
+            x = rng.random()
+            if x < 0.08:
+                steps.append({"op": "Flush"})
+            elif x < 0.14:
+                steps.append({"op": "Clone"})
+                nclones += 1
+            elif x < 0.2 and nclones > 0:
+                steps.append({"op": "DropClone"})
+                nclones -= 1
+            elif x < 0.24 and c.get("rot", True):
+                steps.append({"op": "Trigger"})
+            steps.append({"op": "Log", "len": rng.choice([9, 12, 21, 63, 64, 65, 200, 8192]) if rng.random() < 0.9 else 20000})
+        if rng.random() < 0.5:
+            steps.append({"op": "Shutdown"})
+            if rng.random() < 0.3:
+                steps.append({"op": "Shutdown"})
+        steps.append({"op": "Stop", "shutdown": rng.random() < 0.5})
+        out.append({"sc": sc0 + i, "cfg": c, "t0": 1000, "steps": steps, "origin": "rand", "obs": "sync",
+                    "tag": {"clone_dropped": any(s["op"] == "DropClone" for s in steps)}})
+    return out
+
+
+def C04(tier, seed):
+    import json
+    import os
+    import random
+    import shutil
+    import time
+    from . import common as C
+    t0 = time.time()
+    pid = "C04"
+    wd = C.workdir(pid)
+    try:
+        build_s = C.build_harness()
+        states = transitions = 0
+        mc_stats = []
+        for mode in ("direct", "buf", "async"):
+            cfg = f"MCFlwConc_{mode}.cfg" if tier == "quick" else f"MCFlwConc_{mode}_t.cfg"
+            if not os.path.exists(os.path.join(C.SPEC, cfg)):
+                cfg = f"MCFlwConc_{mode}.cfg"
+            r = C.run_tlc("MCFlwConc.tla", os.path.join(C.SPEC, cfg), os.path.join(wd, "mc-" + cfg), workers=8, timeout=2400)
+            if r["violated"] or r["deadlock"]:
+                raise C.ToolError(f"FlwConc/{cfg} violates {r['violated']} in the intended design")
+            mc_stats.append({"cfg": cfg, "states": r["states"], "transitions": r["transitions"], "wall_s": r["wall_s"]})
+            states += r["states"]
+            transitions += r["transitions"]
+            C.log(f"[C04] TLC {cfg}: {r['states']} distinct states; AfterShutdown, AfterFlush, CloneDropKeepsWriter, C03_* and "
+                  f"the liveness property ShutdownReturns hold (intended design, all interleavings)")
+        r = C.run_tlc("MCFlwConc.tla", os.path.join(C.SPEC, "MCFlwConc_asis.cfg"), os.path.join(wd, "mc-asis"), workers=4, timeout=600)
+        asis = r["violated"]
+        C.log(f"[C04] TLC MCFlwConc_asis.cfg (as coded): violated invariants: {asis or 'none'}")
+        rng = random.Random(seed)
+        scens = []
+        nmodel = 0
+        for mode in ("direct", "buf", "async"):
+            r = C.run_tlc("MCFlwConc.tla", os.path.join(C.SPEC, f"MCFlwConc_gen_{mode}.cfg"), os.path.join(wd, "gen-" + mode),
+                          workers=4, timeout=900)
+            reps = C.replay_lines(r)
+            states += r["states"]
+            transitions += r["transitions"]
+            # distinct application-level histories
+            seen, uniq = set(), []
+            for x in reps:
+                key = json.dumps([s["op"] for s in x["steps"] if s["op"] != "Format"])
+                if key not in seen:
+                    seen.add(key)
+                    uniq.append(x)
+            lim = 2500 if tier == "quick" else 100000
+            if len(uniq) > lim:
+                random.Random(seed + 11).shuffle(uniq)
+                uniq = uniq[:lim]
+            new = _c04_from_model(uniq, mode, rng, len(scens) + 1)
+            scens += new
+            nmodel += len(new)
+        scens += _rand_c04(rng, tier, len(scens) + 1)
+        res = C.run_sharded(pid, "MonC04", scens, wd)
+        C.log(f"[C04] executed {res['scenarios']} scenarios / {res['events']} events ({nmodel} application-level histories from "
+              f"TLC); observation immediately after each call; judged by MonC04.tla in {res['wall_s']}s; "
+              f"{len(res['bads'])} predicate failures; counters {res['counts']}")
+        viols, known = C.triage(pid, res["bads"], res["traces"], res["scen_files"])
+        for fnd, cnt in known:
+            C.log(f"KNOWN-FINDING: property={pid} {fnd['id']}: {fnd['what']} ({cnt} occurrences)")
+        for v in viols[:10]:
+            C.log(f"VIOLATION property={pid} replay={v['replay']}")
+            C.log(f"   predicate {v['pred']} failed at scenario {v['sc']} event {v['n']}; facts {v['facts']}")
+        cov = {"states": states, "transitions": transitions, "traces_validated_against_impl": res["scenarios"],
+               "events_judged": res["events"], "evaluations": res["scenarios"],
+               "distinct_nontrivial": len({json.dumps([s["cfg"], s["steps"]], sort_keys=True) for s in scens}),
+               "rule": "all application-level histories (log x3, flush, clone, drop-clone, shutdown, then drop of the last "
+                       "handle with/without explicit shutdown) of the FlwConc model per mode, executed with direct / capture / "
+                       "buffered (cap below and above the record) / buffer-and-flush(1 ms) / async (pool 1, small message "
+                       "capacity; flush interval 0 and 1 ms) x four namings x rotation x background cleanup; plus random "
+                       "histories with records around the buffer capacities (63,64,65,8192,20000 bytes)",
+               "samples": C.sample_traces(res["traces"], k=2, maxev=10), "model_checking_runs": mc_stats,
+               "asis_model_violations": asis, "monitor": "MonC04.tla", "monitor_counters": res["counts"],
+               "predicate_failures": len(res["bads"]),
+               "known_findings_hit": [{"id": f["id"], "count": c} for f, c in known], "exhaustive": False,
+               "harness_build_s": round(build_s, 1)}
+        C.write_evidence(pid, tier, seed, "model_checking", cov,
+                         A_COMMON + ["file output (stdout/stderr outputs are exercised by C03's child-process runs)",
+                                     "records are logged by the thread that also calls flush/shutdown; schedules of the "
+                                     "flusher, cleanup and writer threads are whatever the OS produces (all interleavings "
+                                     "are covered on the model side only)"], time.time() - t0, len(viols))
+        return 1 if viols else 0
+    finally:
+        shutil.rmtree(wd, ignore_errors=True)
+
+
+REGISTRY["C04"] = C04
+
+
 from . import routecheck as R  # noqa: E402
 REGISTRY.update({"C13": R.C13, "C20": R.C20})
 EXECUTOR.update({"C13": "route", "C20": "route"})
